@@ -14,7 +14,7 @@ TRUSTED = [
     'text level: proof/StoreText.v proves that the printed raw file is parsed (model/Ini.v) into the store; model/Ini.v restates the line parser of the stdlib configparser as the repository configures it - an assumption about a library outside the repository, compared with it on every run (generated files; the model\'s printer against the printer of the harness, text_store against the raw parser)',
 ]
 PRE = 'From V Require Import lib.Common model.Store model.Duplicates.\nLocal Open Scope nat_scope.\n'
-MUTATIONS = ['none', 'same_line', 'ws_pair', 'reversed_pair', 'ws_species', 'ws_fs', 'ws_sig', 'sig_other_params', 'dup_section', 'table_dup', 'table_ws_dup',
+MUTATIONS = ['none', 'same_line', 'ws_pair', 'ws_pair_other', 'reversed_pair', 'ws_species', 'ws_fs', 'ws_sig', 'sig_other_params', 'dup_section', 'table_dup', 'table_ws_dup',
              'table_vs_formula', 'table_vs_builtin', 'ws_option']
 
 ADDABLE = ('same_line', 'ws_pair', 'reversed_pair', 'ws_species', 'ws_fs', 'ws_sig', 'ws_option')
@@ -39,6 +39,15 @@ def mutate(rng, m, kind):
     if kind == 'none': return m
     if kind == 'same_line': return m if dup(rng.choice(['Pair', 'Tabulation']), lambda e: True) else None
     if kind == 'ws_pair': return m if dup('Pair', lambda e: True, newsp=rng.randint(1, 4)) else None
+    if kind == 'ws_pair_other':
+        # the same pair, same species order, written with whitespace that optionxform does NOT remove (form feed, vertical tab, carriage return):
+        # the two keys differ for the INI parser, the species (str.strip()) are the same -- the duplicate-pair check must refuse it
+        s_, es = find_section(m, 'Pair')
+        if not es: return None
+        e = copy.deepcopy(rng.choice(es)); w = rng.choice(['\x0c', '\x0b', '\r'])
+        a, b = e['key'][1], e['key'][2]
+        e['rawkey'] = rng.choice(['%s%s-%s' % (a, w, b), '%s-%s%s' % (a, w, b), '%s%s-%s%s' % (a, w, w, b)]); e['_dup'] = True
+        es.insert(rng.randint(0, len(es)), e); return m
     if kind == 'reversed_pair': return m if dup('Pair', lambda e: e['key'][1] != e['key'][2], newkey=lambda k: ('pair', k[2], k[1])) else None
     if kind == 'ws_species': return m if dup('EAM-Embed', lambda e: True) else None
     if kind == 'ws_fs': return m if dup('EAM-Density', lambda e: e['key'][0] == 'fs', newsp=rng.randint(1, 3)) else None
